@@ -174,11 +174,7 @@ Proof.
   intros. unfold get_idx_offset.
   destruct (Z.of_nat (length strides) =? Z.of_nat (length idx)); [|reflexivity].
   destruct (hd_error idx); [|reflexivity]. destruct (hd_error strides); [|reflexivity].
-  f_equal.
-  assert (E : forall l a, fold_left (fun acc '(i, s) => let new := CBin CMul i s true in
-                                      let acc0 := CBin CAdd acc new true in acc0) l a = fold_left gio_step l a).
-  { induction l; intros; simpl; [reflexivity|]. rewrite <- IHl. destruct a. reflexivity. }
-  apply E.
+  reflexivity.
 Qed.
 
 Theorem get_idx_offset_dot : forall strides idx e rho sg,
